@@ -1,4 +1,5 @@
 mod admin;
+mod groups;
 mod inst;
 mod perm;
 mod raw;
